@@ -105,6 +105,11 @@ fn syllables(o: &LayoutOracle, reph_on: bool) -> Vec<Syl> {
     for (v, name) in [("ু", "hasanta+u=উ"), ("া", "hasanta+aa=আ"), ("ি", "hasanta+i=ই"), ("ে", "hasanta+e=এ")] {
         out.push(Syl { uni: vec![h, k(v)], pre: vec![], rest: vec![h, k(v)], desc: name.to_string() });
     }
+    // an explicit hasanta that ends the previous syllable (doubled hasanta, or hasanta + the non-joiner key): same keys in
+    // both orders; a left-standing sign typed after it waits for the next consonant like anywhere else
+    // (always on a bare consonant: after a vowel sign a hasanta key means "the conjunct goes on" in typewriter order)
+    out.push(Syl { uni: vec![k("ক"), h, h], pre: vec![], rest: vec![k("ক"), h, h], desc: "ক+explicit-hasanta(doubled)".to_string() });
+    out.push(Syl { uni: vec![k("ক"), h, k("\u{200C}")], pre: vec![], rest: vec![k("ক"), h, k("\u{200C}")], desc: "ক+explicit-hasanta(+ZWNJ key)".to_string() });
     for v in ["আ", "ই", "এ", "!", ",", "১"] {
         out.push(Syl { uni: vec![k(v)], pre: vec![], rest: vec![k(v)], desc: v.to_string() });
     }
@@ -255,7 +260,7 @@ impl Prop for C14 {
     }
     fn rule(&self) -> String {
         "words built from syllables = {12 cluster shapes: single consonant, hasanta conjuncts of 2-3, ro-fola, zo-fola, র+zo-fola, ro+zo-fola, one-key ক্ষ, reph (new style key first / old style key after the cluster)} \
-         x {no sign, া ী ু ৃ, left-standing ি ে ৈ, two-part ো=ে…া, ৌ=ে…ৌ, ৌ=ে…ৗ} x [chandrabindu], plus independent vowels (typed directly, and as hasanta + sign: উ আ ই এ), punctuation, digit: all words of 1-2 syllables (a strided quarter of the 2-syllable words in quick), in thorough a strided eighth of all 3-syllable words, and random words of 3-5 syllables, \
+         x {no sign, া ী ু ৃ, left-standing ি ে ৈ, two-part ো=ে…া, ৌ=ে…ৌ, ৌ=ে…ৗ} x [chandrabindu], plus independent vowels (typed directly, and as hasanta + sign: উ আ ই এ), a consonant closed by an explicit hasanta (doubled, or + ZWNJ key), punctuation, digit: all words of 1-2 syllables (a strided quarter of the 2-syllable words in quick), in thorough a strided eighth of all 3-syllable words, and random words of 3-5 syllables, \
          under the 16 settings of auto-vowel/auto-chandra/traditional/old-reph; typed in typewriter order with the option on and in Unicode order with it off; \
          every pending sign checked for not-shown / ongoing; a strided third of the words repeated with <sign, backspace> inserted before a syllable. \
          distinct_nontrivial = distinct (final text, options) pairs compared."
